@@ -110,6 +110,36 @@ def scope(n, atoms=('p', 'q')):
             yield {'n': n, 'edges': edges, 'labels': [list(x) for x in lab]}
 
 
+def scope_at(n, idx, atoms=('p', 'q')):
+    """The idx-th structure of S(n) in the order of scope(n), by mixed-radix decoding."""
+    nl = 1 << len(atoms)
+    lab_total = nl ** n
+    rel_i, lab_i = divmod(idx, lab_total)
+    base = (1 << n) - 1
+    rel = []
+    for _ in range(n):
+        rel_i, d = divmod(rel_i, base)
+        rel.append(d + 1)
+    rel.reverse()
+    subsets = []
+    for r in range(len(atoms) + 1):
+        for c in itertools.combinations(atoms, r):
+            subsets.append(list(c))
+    labs = []
+    for _ in range(n):
+        lab_i, d = divmod(lab_i, nl)
+        labs.append(list(subsets[d]))
+    labs.reverse()
+    edges = [[i, j] for i in range(n) for j in range(n) if (rel[i] >> j) & 1]
+    return {'n': n, 'edges': edges, 'labels': labs}
+
+
+def scope_strided(n, stride, offset=0, atoms=('p', 'q')):
+    """Every stride-th structure of S(n) without enumerating the ones in between."""
+    for idx in range(offset % stride, scope_size(n, len(atoms)), stride):
+        yield scope_at(n, idx, atoms)
+
+
 def scope_size(n, natoms=2):
     return ((1 << n) - 1) ** n * (1 << natoms) ** n
 
@@ -144,7 +174,10 @@ def st_kripke(min_states=1, max_states=5, atoms=('p', 'q')):
 
     @hs.composite
     def kripkes(draw):
-        n = draw(hs.integers(min_states, max_states))
+        # Hypothesis favours small integers; small structures are enumerated exhaustively
+        # elsewhere, so half of the draws come from the upper half of the range
+        mid = (min_states + max_states + 1) // 2
+        n = draw(hs.one_of(hs.integers(min_states, max_states), hs.integers(mid, max_states)))
         edges = []
         for i in range(n):
             m = draw(hs.integers(1, (1 << n) - 1))        # non-empty successor set
